@@ -23,9 +23,7 @@ def run(rep, tier):
     nd = halpipe.subsample(descs, 1200 if quick else 0, common.seed())
     events, bad = halpipe.run_and_validate_sharded(rep, wd, descs, "c08", shards=8 if quick else 12)
     rep.evaluations += len(events) * 8
-    ops = {}
-    for e in events:
-        ops[e["op"]] = ops.get(e["op"], 0) + 1
+    ops = events.op_counts()
     rep.distinct += len(events)
     rep.extra["descriptors"] = nd
     rep.extra["descriptors_in_scope"] = n
@@ -34,7 +32,7 @@ def run(rep, tier):
     rep.rule = ("descriptors (op, bA, bR, sizes, offset, digit alphabet incl. out-of-range digits) enumerated by TLC (%s; quick tier: seeded subset of %d of %d); "
                 "each expanded to every digit tuple alpha^size (8 tuples per call), run on 4 back-ends x 2 garbage pre-fills; TLC validates NormOK/EncOK per coefficient "
                 "and that the enumeration is complete; distinct = events with distinct (descriptor, chunk)" % (cfg, nd, n))
-    for e in events[:: max(1, len(events) // 4)][:4]:
+    for e in [events[i] for i in range(0, len(events), max(1, len(events) // 4))][:4]:
         rep.sample({k: e[k] for k in ("op", "n", "rs", "p", "chunk", "nchunks")} | {"src": (e["ins"]["a"] or e["ins"]["r"])})
     halpipe.binding_selftest(rep, wd, os.path.join(wd, "c08.s0.events.ndjson"), "c08")
     nb = halpipe.report(rep, events, bad, {"sem", "sem1", "enum"}, "c08")
